@@ -191,6 +191,9 @@ func c11Spaces(tier string) []*explore.Space {
 		exprSpace("U4xT3", "A | B | C and (A | B)[P] x T(<=3)", u4, t3, bag),
 		exprSpace("U5xT3", "a union re-evaluated per candidate: host[A | B], host[(A | B) = 'v'], host[count(A | B) > 1], host/(s1, s2) x T(<=3)", u5, t3, bag),
 		exprSpace("U6xT4", "operands ending in a positional predicate (merge queries) united with relative operands, both orders x T(<=4)", u6, func() []*doc.Tree { return uniT(4) }, bag),
+		exprSpace("U2/3xBig", "fixed stratum (every 3rd) of A | B pairs x documents with 5+ children / depth 4..6 (operands with 4+ nodes)", stratum(u2, 3), func() []*doc.Tree {
+			return append(append([]*doc.Tree{}, stridedTrees(uniWide(5), 27)...), stridedTrees(uniDeep(6), 9)...)
+		}, bag),
 	}
 	if tier == "thorough" {
 		sp = append(sp, exprSpace("U2x11", "A | B pairs x the '-'/digit name universe (<=3)", u2, func() []*doc.Tree { return uni11(3, []string{"v-1", "v", "1", ""}, "mix4") }, bag))
@@ -203,7 +206,7 @@ func init() {
 		ID: "C11", Level: "exploration",
 		Rule: "U1 enumerates node PAIRS: for every document of a universe whose element/attribute names and values contain '-' and digits and repeat among siblings and cousins, and every ordered pair of nodes (x,y), the union of their absolute addresses must yield exactly {x,y} (1 node iff x=y); U2-U4 enumerate A|B over all pairs of 1-step paths, the sequence form p/(s1,s2[,s3]), A|B|C and (A|B)[P] on T(<=3) from every context; compared as a multiset (every node exactly once, order free) with the reference union; non-trivial = non-empty reference union; distinct = distinct expressions",
 		Assumptions:    []string{"hand-written reference evaluator", "lawful NodeNavigator", "bounded trees"},
-		Budget:         budget(55*time.Second, 12*time.Minute),
+		Budget:         budget(90*time.Second, 12*time.Minute),
 		MinRefOutcomes: 2,
 		Spaces:         c11Spaces,
 	})
